@@ -5,6 +5,7 @@ import (
 	"io"
 	"sort"
 	"strings"
+	"sync/atomic"
 	"testing"
 	"testing/synctest"
 	"time"
@@ -122,8 +123,13 @@ func simConfig(c *Config, trace bool) simrt.Config {
 }
 
 // RunOne executes one program under one decision source.
+// Progress counts runs started and finished; the worker's stall watchdog reads it.
+var Progress atomic.Int64
+
 func RunOne(t *testing.T, prop *Property, prog *Program, ch *simrt.Chooser, trace bool) (res *RunResult) {
 	res = &RunResult{Prog: prog}
+	Progress.Add(1)
+	defer Progress.Add(1)
 	var env *Env
 	defer func() {
 		if r := recover(); r != nil {
@@ -224,7 +230,7 @@ func (env *Env) setup() error {
 		env.san = tally.NewSanitizer(*cfg.Sanitize.Tally())
 	}
 	switch cfg.Stack {
-	case "plain", "cached":
+	case "plain", "cached", "both":
 		opts := tally.ScopeOptions{
 			Tags:                   copyTags(cfg.RootTags),
 			Prefix:                 cfg.Prefix,
@@ -236,7 +242,15 @@ func (env *Env) setup() error {
 		if cfg.DefBuckets != nil {
 			opts.DefaultBuckets = cfg.DefBuckets.Buckets()
 		}
-		if cfg.Stack == "plain" {
+		if cfg.Stack == "both" {
+			// a plain and a cached reporter at once: the scope reports counters,
+			// gauges and histograms through the plain one; timers go through the
+			// cached handle, which takes precedence
+			rr := &RecReporter{seam{env}}
+			rc := &RecCached{seam: seam{env}}
+			env.Plain, env.Cached = rr, rc
+			opts.Reporter, opts.CachedReporter = rr, rc
+		} else if cfg.Stack == "plain" {
 			rr := &RecReporter{seam{env}}
 			env.Plain = rr
 			if cfg.Faults.HasCloser {
